@@ -50,6 +50,29 @@ ULt8(a, b) ==
     ELSE IF a[4] # b[4] THEN a[4] < b[4] ELSE IF a[3] # b[3] THEN a[3] < b[3]
     ELSE IF a[2] # b[2] THEN a[2] < b[2] ELSE a[1] < b[1]
 ULe8(a, b) == ~ULt8(b, a)
+Conc8(a) == <<a[1], a[2], a[3], a[4], a[5], a[6], a[7], a[8]>>     \* force a lazily built function into a tuple
+(* TLC keeps [i \in S |-> e] as a closure and re-evaluates e at every        *)
+(* application; Tup forces a sequence built that way into a tuple once.      *)
+Tup(s) == SubSeq(s, 1, Len(s))
+(* LEB128 of a 64-bit value.  Leb!EncU / Leb!EncS build nested lazy         *)
+(* functions in TLC (cost exponential in the number of output bytes), so    *)
+(* the shift by 7 is done byte-wise here; "lem" checks the results against  *)
+(* Leb's mathematical meaning (AllowedU / AllowedS).                        *)
+Shr7(v) == <<(v[1] \div 128) + (v[2] % 128) * 2, (v[2] \div 128) + (v[3] % 128) * 2,
+             (v[3] \div 128) + (v[4] % 128) * 2, (v[4] \div 128) + (v[5] % 128) * 2,
+             (v[5] \div 128) + (v[6] % 128) * 2, (v[6] \div 128) + (v[7] % 128) * 2,
+             (v[7] \div 128) + (v[8] % 128) * 2, v[8] \div 128>>
+Sar7(v) == [Shr7(v) EXCEPT ![8] = @ + (IF v[8] >= 128 THEN 254 ELSE 0)]
+RECURSIVE EncU8(_)
+EncU8(v) == LET lo == v[1] % 128
+                r  == Shr7(v)
+            IN IF r = <<0, 0, 0, 0, 0, 0, 0, 0>> THEN <<lo>> ELSE <<lo + 128>> \o EncU8(r)
+RECURSIVE EncS8(_)
+EncS8(v) == LET lo   == v[1] % 128
+                r    == Sar7(v)
+                done == (r = <<0, 0, 0, 0, 0, 0, 0, 0>> /\ lo < 64)
+                        \/ (r = <<255, 255, 255, 255, 255, 255, 255, 255>> /\ lo >= 64)
+            IN IF done THEN <<lo>> ELSE <<lo + 128>> \o EncS8(r)
 
 (*----------------------------- DW_EH_PE_* ---------------------------------*)
 PeFormat(e)   == e % 16                        \* e & 0x0f
@@ -71,8 +94,8 @@ MaskA(v, asz) == ZExt(Trunc(v, asz), 8)        \* v mod 2^(8 asz) as u64
 (* reader must reject at the encoding byte)                                 *)
 EncVal(f, raw, asz, le) ==
     CASE f = 0         -> Fld(raw, asz, le)
-      [] f = 1         -> EncU(raw)
-      [] f = 9         -> EncS(raw)
+      [] f = 1         -> EncU8(raw)
+      [] f = 9         -> EncS8(raw)
       [] f \in {2, 10} -> Fld(raw, 2, le)
       [] f \in {3, 11} -> Fld(raw, 4, le)
       [] f \in {4, 12} -> Fld(raw, 8, le)
@@ -154,8 +177,8 @@ LenBytes(fmt, n, le) == IF fmt = 32 THEN Fld(N8(n), 4, le)
 
 (* instruction tokens used by this module: 0 = DW_CFA_nop, d \in 1..63 =    *)
 (* DW_CFA_advance_loc d                                                     *)
-InsBytes(ins)   == [i \in 1..Len(ins) |-> IF ins[i] = 0 THEN 0 ELSE 64 + ins[i]]
-InsMeaning(ins) == [i \in 1..Len(ins) |-> IF ins[i] = 0 THEN <<"nop">> ELSE <<"adv", ins[i]>>]
+InsBytes(ins)   == Tup([i \in 1..Len(ins) |-> IF ins[i] = 0 THEN 0 ELSE 64 + ins[i]])
+InsMeaning(ins) == Tup([i \in 1..Len(ins) |-> IF ins[i] = 0 THEN <<"nop">> ELSE <<"adv", ins[i]>>])
 
 (* A CIE is [fmt, ver, aug, asz, seg, caf, daf, ra, lenc, penc, praw, renc, *)
 (* augx, ins] (caf a natural number, daf an integer, both < 2^31 in        *)
